@@ -213,7 +213,7 @@ func c13Configs(tier string) []c13Config {
 	mags := []time.Duration{time.Microsecond, time.Millisecond, time.Second, time.Minute, time.Hour, 7*time.Hour + 1}
 	draws := 3
 	if tier == "thorough" {
-		draws = 5
+		draws = 7
 	}
 	type kc struct {
 		kind   string
